@@ -3,6 +3,9 @@ import HgVerif.Lemmas.MapNode
 Helper lemmas for C10, second part: the per-slot ("solo") machine and the refinement of every phase of
 `MapNode.cycle` to it.  Core Lean only.
 -/
+set_option linter.unusedSimpArgs false
+set_option linter.unusedVariables false
+
 namespace HgVerif.MapNode
 
 local notation "Time" => Nat
